@@ -139,7 +139,7 @@ Proof. unfold unmarshal_element. rewrite view_strip, height_strip. reflexivity. 
 (* the decoded text of an element is the concatenation of its direct character data whatever is interleaved *)
 Lemma text_of_view_kids ns kids :
   text_of_kids (flat_map (view ns) kids) =
-  fold_right String.append "" (map (fun n => match n with Text s => cr_normalise s | _ => "" end) kids).
+  fold_right String.append "" (map (fun n => match n with Text s => s | _ => "" end) kids).
 Proof.
   induction kids as [|x r IH]; [reflexivity|].
   cbn [flat_map map fold_right]. destruct x; cbn [view app text_of_kids]; rewrite IH; reflexivity.
